@@ -28,7 +28,7 @@ SHAPES = {"degenerate": (1, 1), "tiny": (3, 5), "odd": (37, 13), "large": (20011
 
 
 def REQUIRED(tier):
-    return [f"kernel:{k}" for k in KERNELS] + ["configs_run", "probe_runs", "probe_wrong", "canary_audits", "pyfunc_checks", "shape:large", "shape:degenerate", "affinity_pinned_cases", "kernel:lib_subband", "shape:chan1300", "kernel:lib_push_data", "kernel:lib_downsample", "kernel:moments_cont"]
+    return [f"kernel:{k}" for k in KERNELS] + ["configs_run", "probe_runs", "probe_wrong", "canary_audits", "pyfunc_checks", "shape:large", "shape:degenerate", "affinity_pinned_cases", "kernel:lib_subband", "shape:chan1300", "kernel:lib_push_data", "kernel:lib_downsample", "kernel:moments_cont", "kernel:lib_ts_downsample"]
 
 
 def EXTRA_COVERAGE(tier, tot):
@@ -57,6 +57,8 @@ def cases(tier, seed):
     yield {"kernel": "probe", "reps": reps, "seed": int(seed) * 1009 + 7000, "tier": tier, "affinity": 2}
     for i, (nch, mode) in enumerate([(1, "full"), (2, "full"), (4, "full"), (8, "full"), (1, "basic"), (3, "basic")]):
         yield {"kernel": "lib_push_data", "nchans": nch, "mode": mode, "seed": int(seed) * 1009 + 9000 + i, "tier": tier}
+    for i, f in enumerate((2, 3, 16)):
+        yield {"kernel": "lib_ts_downsample", "factor": f, "seed": int(seed) * 1009 + 9200 + i, "tier": tier}
     for i, tf in enumerate((3, 4, 5, 7)):
         yield {"kernel": "lib_downsample", "tfactor": tf, "seed": int(seed) * 1009 + 9100 + i, "tier": tier}
     for nch in (9, 10, 12, 16):
@@ -275,6 +277,39 @@ def _lib_downsample(case, ctx):
     ctx.nontrivial_case({"k": "lib_downsample", "tf": tf})
 
 
+def _lib_ts_downsample(case, ctx):
+    """TimeSeries.downsample / stats.downsample_1d on series of a million samples and more (where an implementation may switch to its
+    multi-threaded build): the same output for every thread count, equal to the group means."""
+    from sigpyproc.core import stats
+    from sigpyproc.header import Header
+    from sigpyproc.timeseries import TimeSeries
+
+    rng = np.random.default_rng([case["seed"], 37])
+    n, f = (1 << 20) + int(rng.integers(0, 7)), int(case["factor"])
+    x = rng.integers(0, 64, size=n).astype(np.float32)
+    m = n // f
+    want = x[: m * f].astype(np.float64).reshape(m, f).mean(axis=1).astype(np.float32)
+    hdr = Header(filename="x.tim", data_type="time series", nchans=1, foff=-1.0, fch1=1400.0, nbits=32, tsamp=1e-3, tstart=58000.0, nsamples=n)
+    first = None
+    for t in (1, 2, 3, 4, 8, 16):
+        for which in ("TimeSeries.downsample", "stats.downsample_1d"):
+            ctx.evaluated(); ctx.count("kernel:lib_ts_downsample")
+            one = dict(case, config=[t, which])
+            holder = {}
+            call = (lambda: holder.__setitem__("o", np.asarray(TimeSeries(x, hdr).downsample(f).data))) if which.startswith("Time") else (lambda: holder.__setitem__("o", np.asarray(stats.downsample_1d(x, f))))
+            try:
+                sched.run_config(min(t, NUMBA_THREADS), 0, call)
+            except Exception as exc:  # noqa: BLE001
+                ctx.violation(f"kernel-raised:lib_ts_downsample:{type(exc).__name__}@{exc_site(exc)}", f"threads={t}: {fmt_exc(exc)}", one)
+                return
+            out = holder["o"]
+            if out.shape != want.shape or not np.array_equal(out.astype(np.float32), want):
+                nb = int(np.sum(out.astype(np.float32) != want)) if out.shape == want.shape else -1
+                ctx.violation(f"wrong-result:{which}", f"threads={t}: {n} samples by {f}: {nb} of {m} outputs differ from the group means", one)
+                return
+    ctx.nontrivial_case({"k": "lib_ts_downsample", "f": f})
+
+
 def _lib_push(case, ctx):
     """ChannelStats.push_data as the library drives it (few channels, blocks of thousands of spectra, a first and a continuation block):
     the record must be bit-identical for every thread count and its extrema must be those of the data."""
@@ -321,6 +356,8 @@ def _run_case(case, ctx):
         return _lib_push(case, ctx)
     if case["kernel"] == "lib_downsample":
         return _lib_downsample(case, ctx)
+    if case["kernel"] == "lib_ts_downsample":
+        return _lib_ts_downsample(case, ctx)
     rng = np.random.default_rng([case["seed"], 19])
     cfgs = sched.configs(case["tier"])
     reps = case["reps"]
